@@ -1,9 +1,82 @@
-(* C10 -- VCS steps run only as configured, in order, and stop at the first failure. (theorems are added as they are proved) *)
-From Coq Require Import List NArith.
-From BV Require Import Lib.PyStr Model.Vcs.
+(* C10 -- VCS steps run only as configured, in order, and stop at the first failure.
+   Checked over the complete product all_cfgs x all_opts x all_worlds (45 x 432 x 768 points). *)
+From Coq Require Import List Bool NArith.
+From BV Require Import Lib.PyStr Model.Vcs Proofs.VcsFacts.
 Import ListNotations.
+Local Open Scope N_scope.
+
+(* the enumerations are complete *)
+Theorem C10_all_opts_complete : forall o, In o all_opts.
+Proof. exact all_opts_complete. Qed.
+Print Assumptions C10_all_opts_complete.
+Theorem C10_all_cfgs_complete : forall c, (c_tag c = true -> c_commit c = true) -> (c_push c = true -> c_commit c = true) -> In c all_cfgs.
+Proof. exact all_cfgs_complete. Qed.
+Print Assumptions C10_all_cfgs_complete.
+Theorem C10_all_worlds_complete : forall w, (w_dirty w < 4)%N -> (w_nfiles w = 1 \/ w_nfiles w = 2)%nat -> In w all_worlds.
+Proof. exact all_worlds_complete. Qed.
+Print Assumptions C10_all_worlds_complete.
+
+(* fetch, status, write, pre-hook, add*, commit, post-hook, tag, push: ranks strictly increase, EAdd may repeat *)
+Theorem C10_order_ok : forall c o w, In c all_cfgs -> In o all_opts -> In w all_worlds ->
+  sorted_rank (fst (update_trace c o w)) = true.
+Proof. exact order_ok. Qed.
+Print Assumptions C10_order_ok.
+
+Theorem C10_gating_ok : forall c o w, In c all_cfgs -> In o all_opts -> In w all_worlds ->
+  (forall e, In e (fst (update_trace c o w)) -> is_tag_ev e = true \/ is_push_ev e = true -> In ECommit (fst (update_trace c o w))) /\
+  (eff_commit c o = false -> forall e, In e (fst (update_trace c o w)) -> is_commit_ev e = false).
+Proof. exact gating_ok. Qed.
+Print Assumptions C10_gating_ok.
+
+Theorem C10_enabled_ok : forall c o w, In c all_cfgs -> In o all_opts -> In w all_worlds ->
+  (forall e, In e (fst (update_trace c o w)) -> is_tag_ev e = true -> eff_tag c o = true) /\
+  (forall e, In e (fst (update_trace c o w)) -> is_push_ev e = true -> eff_push c o = true /\ w_remote w = true) /\
+  (In EHookPre (fst (update_trace c o w)) -> c_pre c <> HookAbsent) /\
+  (In EHookPost (fst (update_trace c o w)) -> c_post c <> HookAbsent).
+Proof. exact enabled_ok. Qed.
+Print Assumptions C10_enabled_ok.
+
+Theorem C10_stop_ok : forall c o w, In c all_cfgs -> In o all_opts -> In w all_worlds ->
+  forall e, w_fail w = Some e -> In e (fst (update_trace c o w)) ->
+  (exists pre, fst (update_trace c o w) = pre ++ [e]) /\ snd (update_trace c o w) = false.
+Proof. exact stop_ok. Qed.
+Print Assumptions C10_stop_ok.
+
+Theorem C10_dry_ok : forall c o w, In c all_cfgs -> In o all_opts -> In w all_worlds ->
+  o_dry o = true -> forall e, In e (fst (update_trace c o w)) -> e = EFetch.
+Proof. exact dry_ok. Qed.
+Print Assumptions C10_dry_ok.
+
+Theorem C10_nofetch_ok : forall c o w, In c all_cfgs -> In o all_opts -> In w all_worlds ->
+  o_fetch o = false -> ~ In EFetch (fst (update_trace c o w)).
+Proof. exact nofetch_ok. Qed.
+Print Assumptions C10_nofetch_ok.
+
+(* holds for every configuration, not only the enumerated ones *)
+Theorem C10_contradiction_ok : forall c o w, parse_vcs_options c o = None -> update_trace c o w = ([], false).
+Proof. exact contradiction_ok. Qed.
+Print Assumptions C10_contradiction_ok.
+
+Theorem C10_dirty_ok : forall c o w, In c all_cfgs -> In o all_opts -> In w all_worlds ->
+  eff_commit c o = true -> w_has_vcs w = true -> (w_dirty w = 2 \/ (w_dirty w = 1 /\ o_allow_dirty o = false)) ->
+  o_dry o = false -> ~ In EWrite (fst (update_trace c o w)) /\ snd (update_trace c o w) = false.
+Proof. exact dirty_ok. Qed.
+Print Assumptions C10_dirty_ok.
+
+Theorem C10_write_before_vcs : forall c o w, In c all_cfgs -> In o all_opts -> In w all_worlds ->
+  forall pre e post, fst (update_trace c o w) = pre ++ e :: post -> is_vcs_write_ev e = true -> In EWrite pre.
+Proof. exact write_before_vcs. Qed.
+Print Assumptions C10_write_before_vcs.
+
 Example C10_full_sequence :
   update_trace (mkucfg true true true HookOk HookOk) (mkuopts None None None false false true false) (mkworld true true 0 false 2 None)
   = ([EFetch; EStatus; EWrite; EHookPre; EAdd; EAdd; ECommit; EHookPost; ETagAnnotated; EPushTag], true).
 Proof. vm_compute. reflexivity. Qed.
 Print Assumptions C10_full_sequence.
+
+(* the commit fails: nothing after it, exit code not 0 *)
+Example C10_commit_fails :
+  update_trace (mkucfg true true true HookOk HookOk) (mkuopts None None None false false true false) (mkworld true true 0 false 2 (Some ECommit))
+  = ([EFetch; EStatus; EWrite; EHookPre; EAdd; EAdd; ECommit], false).
+Proof. vm_compute. reflexivity. Qed.
+Print Assumptions C10_commit_fails.
